@@ -20,6 +20,7 @@ from common import Violation, sexp, Atom, parse_sexp
 
 TITLE = "formula to CNF conversions"
 LEVEL = "proof"
+DOMAINS = ['Logic']
 
 # --------------------------------------------------------------------------- formulas
 # harness representation: int | ("not", f) | ("and", (f, ...)) | ("or", (f, ...)) | ("if", p, q) | ("iff", p, q)
